@@ -557,6 +557,46 @@ func runCase(c Case) (msg, inconc string, stats map[string]int) {
 		}
 	}
 
+	// ---- phase D: obstructed output path ----
+	// A regular file sits where a directory of the output path of a package that translates is
+	// needed, so its file cannot be written: goose must not report success (exit 0 means every
+	// matched package was translated AND written), and must leave the obstructing file alone
+	// (seeded change C17-3).
+	if len(c.Prior) > 0 && c.Prior[len(c.Prior)-1]%3 == 1 && ra.Exit == 0 {
+		var victim string
+		for _, rel := range sortedKeys(writtenA) {
+			if strings.Count(filepath.ToSlash(rel), "/") >= 1 {
+				victim = rel
+				break
+			}
+		}
+		if victim != "" {
+			if e := prepare(); e != "" {
+				return "", e, stats
+			}
+			block := filepath.Dir(victim)
+			if c.Prior[0]%2 == 1 {
+				// the topmost component instead of the innermost directory
+				block = strings.SplitN(filepath.ToSlash(victim), "/", 2)[0]
+			}
+			if err := plantFile(outRoot, block, "not a directory\n", 7); err != nil {
+				return "", "cannot plant the obstructing file: " + err.Error(), stats
+			}
+			rd, ic := invoke(c, w, outRoot, false)
+			if ic != "" {
+				return "", ic, stats
+			}
+			stats["invocations"]++
+			stats["obstructed-output-path"]++
+			if rd.Exit == 0 {
+				return fmt.Sprintf("[obstructed output path] a regular file at %s under the output root makes it impossible to write %s, yet goose exited with status 0; stderr: %s", block, victim, tail(rd.Stderr, 300)), "", stats
+			}
+			if st, ok := rd.After[block]; !ok || st.Content != "not a directory\n" {
+				return fmt.Sprintf("[obstructed output path] the regular file at %s under the output root was removed or overwritten", block), "", stats
+			}
+		}
+	}
+
 	// ---- phase B: pre-populated output tree ----
 	if e := prepare(); e != "" {
 		return "", e, stats
